@@ -75,7 +75,7 @@ def jobs_for(tier, rng):
         kind = ["VI", "SAVI", "VI"][k % 3]
         m = gen.dag(rng)
         jobs.append({"mdp": m, "kind": kind, "gamma": rng.choice([[1, 2], [3, 4], [1, 1]]) if kind == "VI" else [1, 2],
-                     "eps": [1, 6], "test": rng.choice(["span", "max_diff"]), "calls": rng.choice([[1, 30], [2, 30], [1, 1, 30]]),
+                     "eps": [1, 6], "test": rng.choice(["span", "max_diff"]), "calls": [1, 30] if k % 3 == 0 else rng.choice([[1, 30], [2, 30], [1, 1, 30]]),
                      "mbs": rng.choice([3, 1024]), "shuffle": False, "tag": f"dag-{kind}{k}", "min_sweeps": 3})
     # solvers of all four families solving at the same time in threads of one process
     for g in range(2 if tier == "quick" else 8):
